@@ -771,8 +771,13 @@ func writeEvidence(total *Env, start time.Time, violations int64, hit map[string
 		ev["assumptions"] = []string{}
 	}
 	b, _ := json.MarshalIndent(ev, "", " ")
-	os.MkdirAll(filepath.Join(Root, "evidence"), 0o755)
-	os.WriteFile(filepath.Join(Root, "evidence", total.ID+".json"), append(b, '\n'), 0o644)
+	// development runs against a scratch checkout (VERIF_REPO) must not overwrite the evidence of /repo
+	evdir := filepath.Join(Root, "evidence")
+	if os.Getenv("VERIF_REPO") != "" {
+		evdir = filepath.Join(Root, ".build", "evidence-dev")
+	}
+	os.MkdirAll(evdir, 0o755)
+	os.WriteFile(filepath.Join(evdir, total.ID+".json"), append(b, '\n'), 0o644)
 }
 
 func topOutcomes(m map[string]int64, n int) map[string]int64 {
